@@ -68,8 +68,13 @@ fn scen(_spec: RunSpec) -> ScenFut {
         let mut qc = QueryConfig::default();
         qc.l2_cache_dir = None;
         qc.l1_cache_size = [600usize, 64 << 20][sim::w(2) as usize];
+        let live = cardinalsin::ingester::BroadcastChannel::new(16);
         let qn = match QueryNode::new(qc, store.clone(), meta.clone(), StorageConfig::default()).await {
-            Ok(q) => Arc::new(q),
+            Ok(mut q) => {
+                // streaming subscriptions run their historical phase through the same engine
+                q.connect_broadcast(live.subscribe());
+                Arc::new(q)
+            }
             Err(e) => {
                 sim::with(|st| st.abort = Some(format!("query node: {e}")));
                 return;
@@ -98,7 +103,8 @@ fn scen(_spec: RunSpec) -> ScenFut {
                     _ => "id, host, value_i64".to_string(),
                 };
                 let tail = if sel.starts_with("metric_name") { " GROUP BY metric_name" } else { "" };
-                qs.push(format!("SELECT {sel} FROM metrics WHERE timestamp >= {lo} AND timestamp <= {hi}{tail}"));
+                let prefix = if sim::w(4) == 3 { "STREAM " } else { "" };
+                qs.push(format!("{prefix}SELECT {sel} FROM metrics WHERE timestamp >= {lo} AND timestamp <= {hi}{tail}"));
             }
             plans.push(qs);
         }
@@ -118,8 +124,28 @@ fn scen(_spec: RunSpec) -> ScenFut {
                     if inflight.fetch_add(1, std::sync::atomic::Ordering::SeqCst) > 0 {
                         overlapped.store(true, std::sync::atomic::Ordering::SeqCst);
                     }
-                    let r = qn.query(&sql).await;
+                    let streaming = sql.starts_with("STREAM ");
+                    let r = if streaming {
+                        // historical phase of a streaming subscription (no live data is published in this scenario)
+                        let sql = sql.trim_start_matches("STREAM ").to_string();
+                        match qn.query_stream(&sql).await {
+                            Ok(mut rx) => {
+                                let mut bs = Vec::new();
+                                while let Ok(Some(b)) = tokio::time::timeout(std::time::Duration::from_millis(5), rx.recv()).await {
+                                    match b {
+                                        Ok(b) => bs.push(b),
+                                        Err(e) => return (ti, vec![(sql, Err(e.to_string()))]),
+                                    }
+                                }
+                                Ok(bs)
+                            }
+                            Err(e) => Err(e),
+                        }
+                    } else {
+                        qn.query(&sql).await
+                    };
                     inflight.fetch_sub(1, std::sync::atomic::Ordering::SeqCst);
+                    let sql = sql.trim_start_matches("STREAM ").to_string();
                     out.push((sql, r.map_err(|e| e.to_string())));
                 }
                 (ti, out)
